@@ -514,6 +514,7 @@ def programs(kinds):
     P.append(('qsc/mercier.py', 'mercier', '', {}, {}, Interp))
     P.append(('qsc/grad_B_tensor.py', 'calculate_grad_grad_B_tensor', '', {'two_ways': True}, {'two_ways': True}, Interp))
     P.append(('qsc/r_singularity.py', 'calculate_r_singularity', '', {'high_order': False}, {'high_order': False}, RSing))
+    P.append(('qsc/r_singularity.py', 'calculate_r_singularity', 'ho', {'high_order': True}, {'high_order': True}, RSing))
     P.append(('qsc/calculate_r3.py', 'calculate_r3', 'h0', H0, {}, Interp))
     P.append(('qsc/calculate_r3.py', 'calculate_r3', 'hN', HN, {}, Interp))
     symc = 'self.sigma0 == 0 and np.max(np.abs(self.rs)) == 0 and (np.max(np.abs(self.zc)) == 0)'
